@@ -338,10 +338,8 @@ pub fn run(ctx: &mut Ctx) {
     }
     // long starting sequences, short histories
     for id in ALL_CODECS {
-        let th = ctx.thorough();
-        let cases = ctx.cases(5, 8);
-        let st = (gen::owned_spec_long(id, th), vec(op(id), 1..=5)).prop_map(move |(start, ops)| Case { codec: id, start, ops });
-        ctx.forall(&format!("histories_long/{}", id.name()), cases, st, dispatch);
+        let lens = gen::long_lens(ctx.thorough());
+        ctx.forall_lens(&format!("histories_long/{}", id.name()), &lens, |n| (gen::owned_spec_n(id, n), vec(op(id), 1..=5)).prop_map(move |(start, ops)| Case { codec: id, start, ops }), dispatch);
     }
     // bounded-exhaustive: all histories up to the depth over the grid, from 5 starting lengths
     let depth = 3;
